@@ -744,7 +744,7 @@ func c12(r *Run) {
 		stores := callsNamed(cf, "(*"+H+"/internal/fees.Manager).setLastConsumed")
 		adds := callsNamed(cf, "github.com/ava-labs/avalanchego/utils/math.Add")
 		hdrs := loopHeaders(cf)
-		if len(stores) != 1 || len(hdrs) != 2 || len(adds) != 2 {
+		if len(stores) != 1 || len(hdrs) != 2 || len(adds) < 1 || len(adds) > 2 {
 			r.missing("C12.R3", "Consume:two-phase", fmt.Sprintf("expected a check loop and a commit loop with one setLastConsumed (found %d loops, %d stores, %d checked adds)", len(hdrs), len(stores), len(adds)))
 		} else {
 			st := stores[0]
@@ -786,16 +786,40 @@ func c12(r *Run) {
 					}
 				}
 				okOv, okLim := false, false
-				for _, o := range returnOutcomes(cf) {
-					// returns taken from inside the check loop: not controlled by the check loop's exhausted exit
-					if len(o.Vals) == 2 && term(o.Vals[0]) == "false" && !hasMatch(o.Conds, nd+" <= phi(*)") {
-						cs := strings.Join(o.Conds, " ; ")
-						if strings.Contains(cs, "ago/utils/math.Add(") && strings.Contains(cs, "#1 != nil") {
-							okOv = true
+				// a rejecting edge (the addition overflowed / the sum exceeds the limit) leads only to 'return false, i':
+				// it reaches neither the commit nor the rest of the check loop. Decided on edges, so that the two tests
+				// may be written as one condition.
+				rejects := func(b *ssa.BasicBlock) bool {
+					if reach, _ := pathExists(point{b, 0}, func(i ssa.Instruction) bool {
+						if i == ssa.Instruction(st) {
+							return true
 						}
-						if chkAdd != nil && hasMatch(o.Conds, "p2[*] < "+term(chkAdd.(*ssa.Call))+"#0") {
-							okLim = true
+						if ret, ok := i.(*ssa.Return); ok {
+							vals := unspill(ret) // results pass through cells because of the deferred unlock
+							return !(len(vals) == 2 && term(vals[0]) == "false")
 						}
+						return i.Block() == chk && instrIndex(i) == 0
+					}, nil, nil); reach {
+						return false
+					}
+					return true
+				}
+				if chkAdd != nil {
+					ovEdges := 0
+					allRej := true
+					for _, ev := range errResults(chkAdd) {
+						pos, _ := truthEdges(ev)
+						for k := range pos {
+							ovEdges++
+							if !rejects(cf.Blocks[k[0]].Succs[k[1]]) {
+								allRej = false
+							}
+						}
+					}
+					okOv = ovEdges > 0 && allRej
+					sum := term(chkAdd.(*ssa.Call)) + "#0"
+					for _, e := range predTrueEdges(cf, []string{"p2[*] < " + sum}) {
+						okLim = rejects(cf.Blocks[e[0]].Succs[e[1]])
 					}
 				}
 				r.check(okOv, "C12.R3", "Consume:overflow-rejected-in-check-loop", w.rel(cf.Pos()), "", "an overflowing addition in the check loop does not reject the transaction")
@@ -805,7 +829,40 @@ func c12(r *Run) {
 					want := "(*internal/fees.Manager).lastConsumed(p0, phi(*))"
 					a := argTerms(chkAdd)
 					sa := argTerms(st)
-					r.check(len(a) == 2 && glob(want, a[0]) && glob("p1[phi(*)]", a[1]) && len(sa) == 3 && glob("ago/utils/math.Add((*internal/fees.Manager).lastConsumed(p0, phi(*)), p1[phi(*)])#0", sa[2]) && glob("phi(*)", sa[1]), "C12.R3", "Consume:checked-value-is-stored-value", r.at(w, st), "", "the value stored is not lastConsumed(i)+d[i] as checked: check "+strings.Join(a, "+")+" store "+strings.Join(sa, ","))
+					okV := len(a) == 2 && glob(want, a[0]) && glob("p1[phi(*)]", a[1]) && len(sa) == 3 && glob("phi(*)", sa[1])
+					if okV && !glob("ago/utils/math.Add((*internal/fees.Manager).lastConsumed(p0, phi(*)), p1[phi(*)])#0", sa[2]) {
+						// ... or the checked sums are kept in a local array: slot i is written with the checked sum of
+						// dimension i on every pass of the check loop that does not reject, and slot i is what is stored
+						okV = false
+						if ld, isLoad := strip(st.Common().Args[2]).(*ssa.UnOp); isLoad {
+							if ia, isIdx := ld.X.(*ssa.IndexAddr); isIdx {
+								if arr, isLocal := ia.X.(*ssa.Alloc); isLocal && term(ia.Index) == sa[1] {
+									for _, ref := range *arr.Referrers() {
+										wa, ok := ref.(*ssa.IndexAddr)
+										if !ok || wa == ia {
+											continue
+										}
+										for _, rr := range *wa.Referrers() {
+											ws, ok := rr.(*ssa.Store)
+											if !ok || ws.Addr != ssa.Value(wa) {
+												continue
+											}
+											sumV := resultN(chkAdd, 0)
+											inLoop := chkLoop[ws.Block()]
+											sameIdx := len(chkAdd.Common().Args) == 2 && strings.Contains(a[1], "["+term(wa.Index)+"]")
+											// every way round the check loop passes the slot write
+											hdr := func(i ssa.Instruction) bool { return i.Block() == chk && instrIndex(i) == 0 }
+											skip, _ := pathExists(point{chk.Succs[0], 0}, hdr, isInstr(ws), nil)
+											if inLoop && sameIdx && len(sumV) == 1 && sameValue(ws.Val, sumV[0]) && !skip {
+												okV = true
+											}
+										}
+									}
+								}
+							}
+						}
+					}
+					r.check(okV, "C12.R3", "Consume:checked-value-is-stored-value", r.at(w, st), "", "the value stored is not lastConsumed(i)+d[i] as checked: check "+strings.Join(a, "+")+" store "+strings.Join(sa, ","))
 				}
 				// no store before a failing return of the check loop: no setLastConsumed reachable before those returns (implied by ordering) ; lock held
 				lk := findEffects(cf, "call (*sync.RWMutex).Lock(p0.l)")
